@@ -423,7 +423,7 @@ pub fn control_case() -> Case {
 pub fn cases(tier: Tier, seed: u64) -> Vec<Case> {
     let full = tier == Tier::Thorough;
     let mut out = Vec::new();
-    let sizes: &[(usize, usize)] = if full { &[(1, 1), (3, 2), (2, 3)] } else { &[(3, 2), (1, 1)] };
+    let sizes: &[(usize, usize)] = if full { &[(1, 1), (3, 2), (2, 3), (2, 2), (3, 3)] } else { &[(3, 2), (1, 1), (2, 2)] };
     for &(i, o) in sizes {
         for a in Act::elementwise() {
             for bias in [true, false] {
